@@ -16,7 +16,8 @@ PROVED = ("get_window: restrict-mode slice = exactly the positions with start <=
           "(any non-empty sorted series, start before / inside / after the data, ties to the later sample, Python's wrap-around t[-1] read); "
           "trial_rows / trialRow_mem: to_trial_tensor has one row per trial, all equally long, sample k in row i iff start_i <= t[k] <= end_i, "
           "occupied cells consecutive in time order at the start (align=start) or the end (align=end) of the row, the rest padding")
-NOT_PROVED = "before_t / after_t / closest_t with end, trial_count == count, warp == count: oracle + correspondence"
+NOT_PROVED = ("before_t / after_t / closest_t with end (model correspondence), trial_count (executable model trialCount = count, then count.get per "
+              "trial, rows aligned and trimmed: compared cell by cell, no theorem), warp == count: oracle")
 ASSUMPTIONS = ["series non-empty and sorted (C04)"]
 MODES = ["before_t", "after_t", "closest_t", "restrict"]
 
@@ -161,6 +162,12 @@ def trials(ctx, n):
             w2 = max(len(r) for r in crow)
             if not eq(np.asarray(tc, dtype=float), layout(crow, w2)):
                 ctx.fail("oracle", "trial_count != per-trial rows of count", inp, impl=np.asarray(tc).tolist(), expected=layout(crow, w2).tolist())
+            if ctx.lean:
+                o = ctx.lean.run(["tcount %s %s %s %d %d" % (enc(ts), enc(st), enc(en), b, 1 if align == "end" else 0)])[0]
+                cells = [[] if r == "." else [None if c == "-" else int(c) for c in r.split(",")] for r in o.split("|")] if not o.startswith("ERR") else o
+                got = [[None if (np.isnan(v) if np.isnan(pad) else v == pad) else int(v) for v in row] for row in np.asarray(tc, dtype=float)]
+                if cells != got:
+                    ctx.fail("corr", "trial_count cells != model trialCount", dict(inp, bin=b), impl=got, model=cells)
             g = nap.TsGroup({3: x, 8: nap.Ts(farr(ts[::2], 10**9), time_support=full)}, time_support=full)
             tg = g.trial_count(ep, float(b), align=align, padding_value=pad)
             m8 = g[8].trial_count(ep, float(b), align=align, padding_value=pad)
